@@ -200,6 +200,13 @@ def rules(ck, P):
         ck.check(not lim and not sliced and len(drains) == 1, "E-COMP-LEAF", q + "|whole-payload", "the codec stream is drained completely; nothing limits how many bytes pass",
                  "the payload does not pass the codec as a whole (limiting calls %s, sub-slices at %s, %d draining calls): large tiles are silently cut" % (lim, sliced, len(drains)), ir.loc(b))
 
+        # ... on every successful path: no input (an empty payload, a "small" one) is answered without the codec, because what comes back is
+        # stored and declared as a stream of that codec (and an empty blob is "no tile" for the containers)
+        from . import mvt as _mvt
+        cnt = _mvt.exit_counts(P, b, lambda y: 1 if any(y is d for d in drains) else None)
+        ck.check(cnt == {1}, "E-COMP-LEAF", q + "|every-path", "every successful path of the function runs the codec exactly once",
+                 "%s can return without running its codec (codec runs per successful path: %s): the value it returns for such an input is not a stream of the declared encoding" % (q.rsplit("::", 1)[-1], sorted(cnt)), ir.loc(b))
+
     def fresh():
         return comp.CompInterp(P, leaves)
 
